@@ -6,3 +6,8 @@ check("C14", "exploration",
       "runtime monitor: NeedsQuote compared with ground truth computed by formatting and re-parsing a one-file archive; Quote/Unquote laws evaluated directly",
       "Same bounded-exhaustive and random bodies as C03; ground truth for 'needs quoting' comes from the parser, not from the function under test. Exhaustive below the length bound.",
       "Trusted: x/tools txtar Format/Parse for CR-free bodies; this repository's Parse (itself monitored by C03) for bodies containing CR.")
+
+check("C08", "exploration",
+      "runtime monitor: independent strict unified-diff parser + exact applier (forward and reverse) as oracle over bounded-exhaustive and random text pairs; GNU patch as second applier",
+      "All pairs of texts of up to 4 (quick) / 5 (thorough) lines over {a,b,empty} with and without final newline, the same short texts around 0..8 common context lines, and random long texts with many separated edits are diffed by the real code; every output is parsed strictly (header, hunk order, counts vs. bodies, start lines) and applied to old and, reversed, to new.",
+      "Trusted: checks/c08/udiff.go (own parser/applier, no fuzz, no offset search); GNU patch 2.7 only as a cross-check (disagreement between the two appliers is inconclusive, not a violation).")
